@@ -65,6 +65,8 @@ type Ref struct {
 	address string
 	path    string
 	cache   atomic.Pointer[vivid.Mailbox]
+	// unborn 标记该引用属于一个创建尚未被确认的 Actor：OnPrelaunch 已可使用它订阅事件，但其名称尚未登记，创建仍可能被拒绝。
+	unborn atomic.Bool
 }
 
 func (r *Ref) GetPath() string {
